@@ -1,0 +1,97 @@
+//go:build verif
+
+// Contracts checked by /verif/gowp. This file contains comments only and is compiled only
+// with -tags verif.
+
+package xfn
+
+// C04 (which function runtime a pipeline step is sent to): the connection handed back for a
+// function name targets the endpoint of a FunctionRevision of that function whose
+// desired state is Active, and that endpoint is not empty; a cached connection is reused only
+// if its target is that endpoint, a stale one is closed and replaced, and the connection table
+// is read under the lock and written under the write lock only. Connection garbage collection
+// closes exactly the connections whose function is not in the list of installed Functions.
+
+//@ func (*xfn.PackagedFunctionRunner).getClientConn
+//@ props C04
+//@ sweep
+//@ ghost held int = 0
+//@ requires r != nil && r.client != nil && r.log != nil && r.conns != nil
+//@ requires forall k:string :: k in r.conns ==> r.conns[k] != nil
+//@ let $new = result grpc.NewClient
+//@ site (*sync.RWMutex).RLock($m)
+//@   assert [C04:conns-lock-not-reentered] held == 0
+//@   update held = 1
+//@ site (*sync.RWMutex).RUnlock($m)
+//@   assert [C04:unlock-matches-lock] held == 1
+//@   update held = 0
+//@ optional site (*sync.RWMutex).Lock($m)
+//@   assert [C04:conns-lock-not-reentered] held == 0
+//@   update held = 2
+//@ optional site (*sync.RWMutex).Unlock($m)
+//@   assert [C04:unlock-matches-lock] held == 2
+//@   update held = 0
+//@ site builtin.maplookup($mp, $k) as read-conns
+//@   where $mp == r.conns
+//@   assert [C04:conns-read-under-lock] held != 0
+//@   assert [C04:connection-looked-up-by-function-name] $k == name
+//@ optional site builtin.mapupdate($mp, $k, $v) as write-conns
+//@   where $mp == r.conns
+//@   assert [C04:conns-written-under-write-lock] held == 2
+//@   assert [C04:new-connection-stored-under-function-name] $k == name && $v == $new
+//@ optional site builtin.delete($mp, $k) as delete-conns
+//@   where $mp == r.conns
+//@   assert [C04:conns-written-under-write-lock] held == 2
+//@   assert [C04:only-this-functions-connection-dropped] $k == name
+//@ optional site (*grpc.ClientConn).Close($c)
+//@   assert [C04:only-stale-connection-closed] held == 2 && $c == r.conns[name] && $c.Target() != active.Status.Endpoint
+//@ optional site grpc.NewClient($target, $opts...)
+//@   assert [C04:dials-active-revisions-endpoint] held == 2 && active != nil && $target == active.Status.Endpoint
+//@ ensures [C04:all-locks-released] held == 0
+//@ ensures [C04:connection-targets-an-active-revision] err == nil ==> result != nil
+//@      && exists i :: 0 <= i && i < len(l.Items) && l.Items[i].Spec.DesiredState == "Active"
+//@           && l.Items[i].Status.Endpoint != "" && result.Target() == l.Items[i].Status.Endpoint
+//@ ensures [C04:no-connection-without-active-revision] (forall i :: 0 <= i && i < len(l.Items) ==> l.Items[i].Spec.DesiredState != "Active") ==> err != nil
+//@ loop range l.Items
+//@   invariant [C04:no-active-revision-so-far] active == nil && forall j :: 0 <= j && j < done ==> l.Items[j].Spec.DesiredState != "Active"
+
+//@ func (*xfn.PackagedFunctionRunner).GarbageCollectConnectionsNow
+//@ props C04
+//@ sweep
+//@ ghost held int = 0
+//@ ghost closed strset = emptystrset
+//@ requires r != nil && r.client != nil && r.log != nil && r.conns != nil
+//@ requires forall k:string :: k in r.conns ==> r.conns[k] != nil
+//@ site (*sync.RWMutex).RLock($m)
+//@   assert [C04:conns-lock-not-reentered] held == 0
+//@   update held = 1
+//@ site (*sync.RWMutex).RUnlock($m)
+//@   assert [C04:unlock-matches-lock] held == 1
+//@   update held = 0
+//@ optional site (*sync.RWMutex).Lock($m)
+//@   assert [C04:conns-lock-not-reentered] held == 0
+//@   update held = 2
+//@ optional site (*sync.RWMutex).Unlock($m)
+//@   assert [C04:unlock-matches-lock] held == 2
+//@   update held = 0
+//@ optional site builtin.maprange($mp) as range-conns
+//@   where $mp == r.conns
+//@   assert [C04:conns-read-under-lock] held != 0
+//@ optional site builtin.delete($mp, $k) as delete-conns
+//@   where $mp == r.conns
+//@   assert [C04:conns-written-under-write-lock] held == 2
+//@   assert [C04:only-uninstalled-functions-are-collected] forall i :: 0 <= i && i < len(l.Items) ==> (&l.Items[i]).GetName() != $k
+//@ optional site (*grpc.ClientConn).Close($c)
+//@   assert [C04:closes-the-collected-connection] held == 2 && $c == r.conns[name]
+//@   assert [C04:only-uninstalled-functions-are-collected] forall i :: 0 <= i && i < len(l.Items) ==> (&l.Items[i]).GetName() != name
+//@ ensures [C04:all-locks-released] held == 0
+//@ ensures [C04:installed-functions-keep-their-connection] forall k:string :: old(k in r.conns) && (exists i :: 0 <= i && i < len(l.Items) && (&l.Items[i]).GetName() == k) ==> k in r.conns
+//@ ensures [C04:uninstalled-functions-lose-their-connection] err == nil ==> forall k:string :: k in r.conns ==> exists i :: 0 <= i && i < len(l.Items) && (&l.Items[i]).GetName() == k
+//@ loop range l.Items
+//@   invariant [C04:exists-table-is-the-function-list] forall k:string :: (k in functionExists) ==> functionExists[k] && exists i :: 0 <= i && i < done && (&l.Items[i]).GetName() == k
+//@   invariant [C04:exists-table-is-complete] forall i :: 0 <= i && i < done ==> (&l.Items[i]).GetName() in functionExists
+//@ loop range r.conns
+//@   invariant [C04:write-lock-held-while-collecting] held == 2
+//@   invariant [C04:visited-are-collected-or-installed] forall k:string :: k in visited ==> (!(k in r.conns) || functionExists[k])
+//@   invariant [C04:only-visited-removed] forall k:string :: old(k in r.conns) && !(k in visited) ==> k in r.conns
+//@   invariant [C04:installed-kept] forall k:string :: old(k in r.conns) && functionExists[k] ==> k in r.conns
